@@ -130,7 +130,7 @@ def race_tie(ctx, h, drv):
     f = os.path.join(ctx.rundir, "spmcb_race.case")
     open(f, "w").write(RACE_CASES)
     t = ctx.tie("spmcb-copyout-race-dfs",
-                [h, "dfs", f, "--preempt", "2", "--max-runs", "1300" if ctx.quick else "30000", "--all", "--atomics"],
+                [h, "dfs", f, "--preempt", "2", "--max-runs", "1300" if ctx.quick else "8000", "--all", "--atomics"],
                 [drv], timeout=3000)
     return chanlib.classify(ctx, t)
 
@@ -146,16 +146,16 @@ def tie(ctx):
     open(wit, "w").write("".join(open(w).read() for w in WITNESSES if os.path.exists(w)))
     ts.append(ctx.tie("spmcb-witnesses", _cmd(h, "run", wit, "--atomics"), [drv]))
     cases = os.path.join(ctx.rundir, "spmcb_targeted.case")
-    _targeted_cases(cases, ctx.seed, 300 if ctx.quick else 8000)
+    _targeted_cases(cases, ctx.seed, 300 if ctx.quick else 2000)
     ts.append(ctx.tie("spmcb-atomics-targeted", _cmd(h, "run", cases, "--atomics"), [drv], timeout=3000))
-    for mode, n in (("seq", 300 if ctx.quick else 6000), ("conc", 400 if ctx.quick else 10000)):
+    for mode, n in (("seq", 300 if ctx.quick else 1500), ("conc", 400 if ctx.quick else 2500)):
         ts.append(ctx.tie("spmcb-atomics-gen-" + mode,
                           _cmd(h, "gen", "--seed", str(ctx.seed), "--cases", str(n), "--mode", mode,
                                "--flavours", "spmc", "--atomics"), [drv], timeout=3000))
     dfs = os.path.join(ctx.rundir, "spmcb_dfs.case")
     open(dfs, "w").write(DFS_CASES)
     ts.append(ctx.tie("spmcb-atomics-dfs",
-                      _cmd(h, "dfs", dfs, "--preempt", "2", "--max-runs", "400" if ctx.quick else "20000", "--all", "--atomics"),
+                      _cmd(h, "dfs", dfs, "--preempt", "2", "--max-runs", "400" if ctx.quick else "5000", "--all", "--atomics"),
                       [drv], timeout=3000))
     ts.append(race_tie(ctx, h, drv))
     return ts
